@@ -53,7 +53,8 @@ func runC08(t *testing.T, c *choice.Stream, r *Result, opt RunOpt) {
 	build := func() *built {
 		sc := choice.New(scSeed)
 		cf := DrawConf(sc)
-		cf.ReadTimeout = []time.Duration{0, 10 * time.Millisecond, time.Second}[sc.Draw("rt", 3)]
+		cf.ReadTimeout = []time.Duration{0, 10 * time.Millisecond, time.Second, ch.NoTimeout}[sc.Draw("rt", 4)]
+		cf.HandshakeTimeout = []time.Duration{0, 300 * time.Millisecond, 2 * time.Second}[sc.Draw("hs.timeout", 3)]
 		rs := drawResponse(sc, cf, 6)
 		b := &built{cf: cf, rs: rs}
 		for _, p := range rs.packets {
